@@ -563,6 +563,49 @@ def case_multi_include(tag, variant, rng=None):
     return [f.cmd() for f in files] + ["load o1 %s/m" % d, "apply o1 go", "dump o1", exp]
 
 
+def case_bigtable(tag, nfun, nlines, extra=0, binary=True, stmt="  k++;\n", nincl=0):
+    """many short statements: `nfun` functions of `nlines` lines `k++;` (3 bytes of code and one 3 byte run each) plus
+    `extra` more such lines in go(): the line tables (`file_info[0]` = their size in bytes, an unsigned short) grow as
+    fast as the code (`program_size`, an unsigned short too); the failing statement is the last one of the program"""
+    d = "/c18/%s" % tag
+    m = Src("%s/m.c" % d)
+    m.text(("#pragma save_binary\n" if binary else "") + "int x_;\nvoid set_oid(string s) {}\n")
+    e = Src("%s/e.h" % d)
+    e.text("// e\n")
+    m.text('#include "e.h"\n' * nincl)      # every inclusion adds two file_info segments (8 bytes) and no code
+    for i in range(nfun):
+        m.text("int h%d(int k) {\n" % i)
+        m._flush()
+        m.toks.append(hx(stmt * nlines))
+        m.line += nlines
+        m.text("  return k;\n}\n")
+    m.text("int go(int k) {\n")
+    if extra:
+        m._flush()
+        m.toks.append(hx(stmt * extra))
+        m.line += extra
+    ln = m.line
+    m.text("  x_ = 10 / (k - k);\n  return 0;\n}\n")
+    p, o = d.lstrip("/") + "/m.c", d + "/m"
+    exp = "expect kind=plain file=%s lines=%d-%d program=%s object=%s trace=go@%s@%s@%s@%d-%d" % (p, ln, ln, p, o, p, o, p, ln, ln)
+    run = ["load o1 %s/m" % d, "apply o1 go", exp, "dump o1"]
+    return [m.cmd()] + ([e.cmd()] if nincl else []) + run + (["unload o1"] + run if binary else [])
+
+
+def case_toolarge(tag, nfun=45, nstmt=190):
+    """more than 65535 bytes of code (nfun functions of nstmt filler statements, 8 bytes each): function addresses,
+    program_size and the offsets find_line works with are 16 bit, so the compiler has to refuse the program"""
+    d = "/c18/%s" % tag
+    m = Src("%s/m.c" % d)
+    m.text("int x_;\nvoid set_oid(string s) {}\n")
+    for i in range(nfun):
+        m.text("int h%d(int k) {\n" % i)
+        m.pad("s", nstmt)
+        m.text("  return k;\n}\n")
+    m.text("int go(int k) {\n  x_ = 10 / (k - k);\n  return 0;\n}\n")
+    return [m.cmd(), "load o1 %s/m" % d, "expectce file=%s line=-1 text=Program_too_large" % m.name]
+
+
 def case_overlap(tag, where="main", pad=0):
     """compile-time ERROR whose text carries two decoded positions: `Overlapping cases: <file>:<line> and <file>:<line>.`
     (prepare_cases decodes the absolute lines of both case labels against the file_info table written SO FAR, after an
@@ -867,6 +910,10 @@ class C18(Prop):
 
     def generate(self, rng, n, tier):
         out = []
+        if tier == "thorough":
+            # 64684 bytes of code, line tables of 65.7 KB (file_info[0] wrapped), 21.7 thousand runs, 96 file ids
+            out.append(E.Case("g-bigtable", case_bigtable("g_bigt", 43, 500, 0, binary=False, nincl=rng.range(96, 120)),
+                              {"fail": "div", "origin": "generated", "long": 1}))
         for i in range(n):
             tag = "g%d_%d" % (rng.below(100000), i)
             if rng.chance(1, 14):
@@ -969,6 +1016,10 @@ class C18(Prop):
         mk("overlap-main-far", case_overlap("b_ovl_far", pad=300), fail="compile-error")
         mk("overlap-include", case_overlap("b_ovl_inc", where="inc", pad=4), fail="compile-error")
         mk("overlap-include-ginc", ["mode ginc"] + case_overlap("b_ovl_ginc", where="inc", pad=11), fail="compile-error")
+        # 16 bit limits of the tables: code just below 65535 bytes whose line tables are LARGER than 64 KB (file_info[0]
+        # wraps; 120 inclusions add segments without code), and a program beyond 65535 bytes (must be refused)
+        mk("bigtable-12k", case_bigtable("b_bigt12", 8, 500, 40, nincl=10), fail="div", long=1)
+        mk("program-too-large", case_toolarge("b_toolarge"), fail="compile-error")
         mk("ginc-init", ["mode ginc"] + case_init("b_ginc_init", pad=5, funcs=1), fail="init")
         mk("ginc-multi-include", ["mode ginc"] + case_multi_include("b_ginc_mi", "back"), fail="reinclude")
         g = Gen(rng, "b_wide", warn=False, ginc=False)
